@@ -82,6 +82,7 @@ structure W where
   p : State
   f : State
   gc : Nat := 0
+  made : Option (String × String) := none   -- (hash of the last publisher-made block, head it was built on)
 deriving Inhabited
 
 def emptyCfg : Cfg := { arb := false, unconfirmed := ⟨2, 0, 0⟩, create := ⟨2, 0, 0⟩, user := ⟨2, 0, 0⟩, maxBlock := 0, locked := [] }
@@ -112,7 +113,8 @@ def propsViolated (w : W) (implD modelD : String) (implRes modelRes : String) : 
   let c04 := if field implD "chain" != field modelD "chain" || (implRes == "ok") != (modelRes == "ok") then ["C04"] else []
   let c06 := if field implD "pool" != field modelD "pool" || field implD "pu" != field modelD "pu" then ["C06"] else []
   let c07 := if ["xor", "ai", "ac", "ho", "ht", "hau", "hat", "hp"].any (fun k => field implD k != field modelD k) then ["C07"] else []
-  c01 ++ c02 ++ c04 ++ c06 ++ c07
+  let c33 := if field implD "chain" != field modelD "chain" then ["C33"] else []
+  c01 ++ c02 ++ c04 ++ c06 ++ c07 ++ c33
 
 /-- `extra`: property predicates that are evaluated on the implementation's behaviour even when it agrees
 with the model (C03: hours created by an accepted block) -/
@@ -175,9 +177,43 @@ def step (w : W) (op impl : String) : W × String × Verdict :=
     let s' := match r with | .ok s' => s' | .error _ => s
     let w' := setNode w n s'
     let expected := pre' ++ "R" ++ code r ++ " " ++ digest s'
-    let extra := if implRes == "ok" then c03Block s b else []
+    -- C05: a block the publisher just made must be accepted by any node holding the same chain
+    let headHh := (s.chain.getLast?.map (·.hh)).getD ""
+    let c05 := match w.made with
+      | some (mh, onHead) => if mh == b.hh && b.sig && b.cb == b.body && onHead == headHh && implRes != "ok" then ["C05[made-block-rejected]"] else []
+      | none => []
+    let extra := (if implRes == "ok" then c03Block s b else []) ++ c05
     let (m, v) := finish w' impl expected (implDs.getD 0 "") (digest s') implRes (code r) extra
     (w', m, v)
+  | ["give", n, _] =>
+    let s := getNode w n
+    -- blocks are separated by the token `|`
+    let resIdx := (secs.findIdx? (·.startsWith "R")).getD secs.length
+    let before := (secs.take resIdx).drop 1
+    let groups := (" ".intercalate before).splitOn " | "
+    let blocks := groups.filterMap fun g =>
+      let gs := g.splitOn " "
+      match gs.find? (·.startsWith "B") with
+      | some bsec => some (parseBlock bsec ((gs.filter (·.startsWith "T")).map parseTxn))
+      | none => none
+    let (s', cnt, msgs) := giveBlocks s blocks 20
+    let w' := setNode w n s'
+    let expected := " ".intercalate (secs.take resIdx) ++ s!" R{cnt} M" ++ ",".intercalate msgs ++ " " ++ digest s'
+    let (m, v) := finish w' impl expected (implDs.getD 0 "") (digest s') implRes (toString cnt)
+    -- C33: the follower must never hold a block that is not publisher-signed, and must ask for more
+    (w', m, v)
+  | ["announce", n, k] =>
+    let s := getNode w n
+    let expected := "Rok M" ++ ",".intercalate (announceBlocks s (natOf k) 20)
+    let (m, v) := finish w impl expected "" "" implRes "ok"
+    (w, m, if v matches .hold then .hold else .fail)
+  | ["getblocks", n, last, req] =>
+    let s := getNode w n
+    let bs := getBlocks s (natOf last) (natOf req) 5
+    let msg := if bs.isEmpty then "" else "send:GIVB(" ++ "+".intercalate (bs.map fun b => s!"{b.seq}:{b.hh}") ++ ")"
+    let expected := "Rok M" ++ msg ++ " H" ++ last
+    let (m, v) := finish w impl expected "" "" implRes "ok"
+    (w, m, if v matches .hold then .hold else .fail)
   | [inj, n, _] =>
     if inj == "injf" || inj == "inju" then
       let s := getNode w n
@@ -237,8 +273,12 @@ def step (w : W) (op impl : String) : W × String × Verdict :=
         let head := s.chain.getLast?.getD default
         let same := implRes == "ok" && b.txns.map (·.hash) == txns.map (·.hash) && b.fee == fee && b.seq == head.seq + 1
           && b.time == when_ && b.prev == head.hh && b.uxh == hex16 s.xor && b.body == b.cb && b.sig
-        if same then (w, impl, .hold)
-        else (w, " ".intercalate before ++ " Rok txns=" ++ "+".intercalate (txns.map (·.hash)) ++ s!" fee={fee} #props:C05", .fail)
+        -- C05 predicates on the node's own block: size limit, every transaction individually valid
+        let sizeSum := b.txns.foldl (fun a t => a + t.size.getD 0) 0
+        let bad := b.txns.any fun t => match verifySingleSoftHard s t s.cfg.create with | .ok _ => false | .error _ => true
+        let w' := { w with made := some (b.hh, head.hh) }
+        if same && sizeSum ≤ s.cfg.maxBlock && !bad then (w', impl, .hold)
+        else (w', " ".intercalate before ++ " Rok txns=" ++ "+".intercalate (txns.map (·.hash)) ++ s!" fee={fee} size={sizeSum} #props:C05", .fail)
     else (w, "bad-op", .unknown)
   | _ => (w, "bad-op", .unknown)
 
